@@ -12,6 +12,9 @@ class Spec(_masterprop.MasterSpec):
 def _m1():
     cfg = mastercfg.m1()
     cfg['monitors'] = [mastermon.mon_c09]
+    # deviation 'S': the master's watches fire between the two writes of one
+    # admin API call (the calls below go through the real masterapi)
+    cfg['split_kinds'] = ('alloc', 'idg', 'idg-', 'cell-', 'cell+', 'prio')
     cfg['events'] = mastercfg.ev(
         ('app+', 'sm'), ('app+', 'id'), ('app+', 'hi'), ('app+', 'on'),
         ('app+', 'ls'),
